@@ -67,6 +67,24 @@ def exact_gate(ctx, rule, fa, node, guard, what, assume=(), ignore=(), key=None)
     return ctx.ob(rule, ok, fa.site(node), what, detail=detail.strip(), func=fa.fi.qualname, key=key)
 
 
+def only_terms(ctx, rule, fa, node, allowed, what, assume=(), key=None):
+    """every atomic fact holding at `node` tests one of the `allowed` conditions (either polarity): no additional condition
+    decides whether `node` is reached.  `allowed` are guard texts; their conjunct terms are used."""
+    terms_ok = set()
+    for g in allowed:
+        terms_ok |= {t for t, _ in terms.parse_guard(g)}
+    have, F = atomic_facts_at(fa, node, assume)
+    if not fa.reachable(node, assume):
+        return ctx.ob(rule, False, fa.site(node), what, detail="the construct is unreachable on every feasible path (dead code)", func=fa.fi.qualname, key=key)
+    extra = set()
+    for k in have:
+        fi = F.info[k]
+        if k[0] in terms_ok or (fi.expanded and fi.expanded in terms_ok):
+            continue
+        extra.add(k)
+    return ctx.ob(rule, not extra, fa.site(node), what, detail="" if not extra else f"additional condition(s) [{fmt_missing(sorted(extra))}]", func=fa.fi.qualname, key=key)
+
+
 def ref_sites(prog, name, loads_only=True):
     """[(module, node, enclosing FunctionInfo|None)] for every syntactic reference to identifier `name`"""
     out = []
